@@ -17,7 +17,7 @@ for s in $list; do
   props="$prop $(python3 -c "import json;print(' '.join(json.load(open('/verif/seeded/$s/meta.json')).get('also_caught_by',[])))")"
   caught=""
   for p in $props; do
-    bin/govc check -repo $wt -prop $p -out $out > $out.log 2>&1 && rc=0 || rc=$?
+    GOVC_FULL=40s bin/govc check -repo $wt -prop $p -out $out > $out.log 2>&1 && rc=0 || rc=$?
     if [ $rc -eq 1 ] && grep -q "^VIOLATION property=$p" $out.log; then caught="$caught $p:$(grep -c '^VIOLATION' $out.log)"; fi
   done
   if [ -n "$caught" ]; then echo "$s ($prop): CAUGHT by$caught  e.g. $(grep -h '^VIOLATION' $out.log | head -1 | sed 's/.*obligation=//')"; else echo "$s ($prop): MISSED"; fail=1; fi
